@@ -79,7 +79,12 @@ impl<'a, TPrinter: Printer> FileExecutor<'a, TPrinter> {
         #[cfg(feature="verif_hooks")]
         let mut verif_line_index = 0usize;
 
-        for reader in std::mem::take(&mut self.readers).into_iter() {
+        'files: for reader in std::mem::take(&mut self.readers).into_iter() {
+            // LIMIT: no input is consumed beyond the line that produced the last row (none at all for LIMIT 0)
+            if self.execution_engine.reached_limit() {
+                break 'files;
+            }
+
             for line in reader.lines() {
                 #[cfg(feature="verif_hooks")]
                 {
@@ -111,7 +116,7 @@ impl<'a, TPrinter: Printer> FileExecutor<'a, TPrinter> {
                     }
 
                     if output.reached_limit {
-                        break;
+                        break 'files;
                     }
                 } else {
                     break;
@@ -224,6 +229,10 @@ impl<'a> FollowFileExecutor<'a> {
     pub fn execute(&mut self) -> ExecutionResult<()> {
         if self.execution_engine.is_join() {
             return Err(ExecutionError::JoinNotSupported);
+        }
+
+        if self.execution_engine.reached_limit() {
+            return Ok(());
         }
 
         for input_line in FollowFileIterator::new(self.reader.take().unwrap()) {
